@@ -12,6 +12,7 @@ from .. import core, lmi_common as lc, structural as st
 THEOREMS = ['Pk.C12.C12_schur_I', 'Pk.C12.C12_constraint', 'Pk.C12.C12_epigraph', 'Pk.C12.C12_cost',
             'Pk.C12.C12_tikhonov_is_edmd', 'Pk.C12.C12_twonorm_sound', 'Pk.C12.C12_nuclear_partial',
             'Pk.C12.C12_twonorm_epigraph', 'Pk.C12.C12_nuclear_epigraph', 'Pk.C12.C12_nuclear_trace_bound', 'Pk.C12.C12_nuclear_epigraph_exists',
+            'Pk.C12.C12_constraint_inv', 'Pk.C12.C12_epigraph_inv',
             'Pk.C12.C12_dmdc_constraint', 'Pk.C12.C12_dmdc_epigraph', 'Pk.C12.C12_dmdc_cost', 'Pk.C12.C12_dmdc_defect',
             'PkLA.dmdc_residual']
 INV = ['inv', 'pinv', 'eig', 'ldl', 'chol', 'sqrt', 'svd']
@@ -181,15 +182,184 @@ def oracle_fit(ctx, thorough):
     return None, case, None
 
 
+# ----------------------------------------------------------------------------- long records (many snapshot pairs)
+# The size of the LMI does not depend on the number q of snapshot pairs (the data enter through c, G, H / the SVD
+# factors only), so a fit on thousands of pairs is as cheap as one on twenty - and must minimise the same documented cost.
+
+def long_size(rng):
+    """(total number of snapshot pairs, number of episodes) of a long record"""
+    r = rng.random()
+    if r < 0.55:
+        q = rng.randint(4097, 10000)
+    elif r < 0.70:
+        q = rng.randint(1025, 4096)
+    elif r < 0.85:
+        q = rng.randint(10001, 20000)
+    else:
+        q = 2 ** rng.randint(10, 14) + rng.choice([-1, 0, 1, 2, rng.randint(3, 900)])
+    n_eps = rng.choice([1, 1, 1, 2, 3, 7, 60, rng.randint(100, 500)])
+    return q, n_eps
+
+
+def long_data(rng, nx, nu, q, n_eps):
+    """A record with exactly q snapshot pairs in n_eps episodes of a noisy, mildly nonlinear system whose excitation
+    level and dynamics change from regime to regime along the record (no sub-range of the record has the statistics of
+    the whole, and no linear model fits exactly). Samples are measured on the grid 1/64 and bounded by 8, so all Gram
+    sums of the record are exactly representable in float64 whatever the order of summation.
+    Returns the list of episodes [(label, block (n_l, nx + nu))]."""
+    rs = np.random.RandomState(rng.randint(0, 2 ** 31 - 1))
+    # episode lengths: n_eps episodes with at least 2 samples each, q + n_eps samples in total
+    cuts = sorted(rng.sample(range(1, q), n_eps - 1)) if n_eps > 1 else []
+    pairs = [b - a for a, b in zip([0] + cuts, cuts + [q])]
+    n_tot = q + n_eps
+    # regimes along the record
+    n_reg = rng.randint(2, 5)
+    edges = sorted(rng.sample(range(1, n_tot), n_reg - 1))
+    regime = np.searchsorted(np.array(edges), np.arange(n_tot), side='right')
+    A0 = rs.uniform(-1, 1, (nx, nx))
+    A0 *= rng.choice([0.6, 0.9]) / max(0.2, np.max(np.abs(np.linalg.eigvals(A0))))
+    B0 = rs.uniform(-1, 1, (nx, nu))
+    levels = [0.3, 0.6, 1.0, 2.0]
+    amp = [rng.choice(levels) for _ in range(n_reg)]
+    if len(set(amp)) == 1:
+        amp[-1] = rng.choice([a for a in levels if a != amp[0]])
+    As = [A0 * rng.choice([0.6, 0.8, 1.0]) + 0.1 * rs.uniform(-1, 1, (nx, nx)) for _ in range(n_reg)]
+    Bs = [B0 * rng.choice([0.5, 1.0, 1.5]) for _ in range(n_reg)]
+    w = rs.randn(n_tot, nx)
+    u = rs.uniform(-1, 1, (n_tot, nu))
+    blocks, k = [], 0
+    x = rs.uniform(-1, 1, nx)
+    for l, m in enumerate(pairs):
+        rows = np.zeros((m + 1, nx + nu))
+        if rng.random() < 0.5:
+            x = rs.uniform(-1, 1, nx)          # (otherwise the next episode continues where the last one stopped)
+        for i in range(m + 1):
+            g = regime[k]
+            uk = amp[g] * u[k]
+            rows[i, :nx] = x
+            rows[i, nx:] = uk
+            x = As[g] @ x + Bs[g] @ uk + 0.25 * np.tanh(x) + 0.25 * amp[g] * w[k]
+            x = np.clip(x, -8, 8)
+            k += 1
+        blocks.append((l, np.clip(np.round(rows * 64) / 64, -8, 8)))
+    return blocks
+
+
+def norm_term(U, reg, square):
+    if reg == 'twonorm':
+        nrm = np.linalg.norm(U, 2)
+    elif reg == 'nuclear':
+        nrm = np.linalg.norm(U, 'nuc')
+    else:
+        return 0.0
+    return nrm ** 2 if square else nrm
+
+
+def oracle_long(ctx, thorough):
+    """LmiEdmd (every inv_method) / LmiDmdc fitted on a LONG record (thousands of snapshot pairs, one or many episodes):
+    the returned matrix minimises the documented cost of the WHOLE record - compared with the closed-form ridge solution
+    (pure Tikhonov; also with Edmd), with rescalings of itself, with points on the segment towards the ridge solution and
+    with a derivative-free local search. The Gram quantities the competitors are built from are the harness's own."""
+    snap = ctx.snap()
+    rng = ctx.rng
+    nx, nu = rng.randint(1, 3), rng.randint(0, 2)
+    q, n_eps = long_size(rng)
+    n_eps = min(n_eps, q // 4)
+    blocks = long_data(rng, nx, nu, q, n_eps)
+    ef = n_eps > 1 or rng.random() < 0.5
+    X = st.ref_combine(blocks, ef)
+    kw = {'n_inputs': nu, 'episode_feature': ef}
+    # the snapshot pairs, episode by episode (own shift; contiguous arrays)
+    Psi = np.ascontiguousarray(np.vstack([b[:-1, :] for _, b in blocks]).T)
+    Theta = np.ascontiguousarray(np.vstack([b[1:, :nx] for _, b in blocks]).T)
+    assert Psi.shape[1] == q
+    G, H, c = Theta @ Psi.T, Psi @ Psi.T, float(np.sum(Theta * Theta))          # exact (dyadic data, see long_data)
+    fam = rng.choice(['edmd', 'edmd', 'edmd', 'dmdc'])
+    reg = rng.choice(['tikhonov', 'tikhonov', 'twonorm', 'nuclear'])
+    # (the documented cost is not scaled by q inside the bracket: alpha has to be of the size of q to matter)
+    alpha = rng.choice([0.0, 1.0, 30.0, 300.0]) if reg == 'tikhonov' else rng.choice([30.0, 300.0])
+    ratio = rng.choice([1.0, 1.0, 0.4, 0.7]) if reg == 'tikhonov' else rng.choice([0.5, 0.75, 1.0])   # (ignored for pure Tikhonov)
+    square = rng.random() < 0.3
+    inv = rng.choice(INV)
+    if fam == 'edmd':
+        est = lmi.LmiEdmd(alpha=lc.num(rng, alpha), ratio=lc.num(rng, ratio), reg_method=reg, inv_method=inv, square_norm=square,
+                          solver_params=dict(lc.SOLVER))
+    else:
+        est = lmi.LmiDmdc(alpha=lc.num(rng, alpha), ratio=lc.num(rng, ratio), reg_method=reg, square_norm=square, solver_params=dict(lc.SOLVER))
+    case = {'family': fam, 'reg': reg, 'alpha': alpha, 'ratio': ratio, 'square': square, 'inv': inv if fam == 'edmd' else None,
+            'nx': nx, 'nu': nu, 'pairs': q, 'episodes': n_eps, 'episode_feature': ef, 'data_form': 'long record',
+            'replay': {'rng': snap, 'thorough': thorough, 'kind': 'long'}}
+    a_tik = alpha if reg == 'tikhonov' else alpha * (1 - ratio)
+    a_oth = 0.0 if reg == 'tikhonov' else alpha * ratio
+    Hr = H + a_tik * np.eye(nx + nu)
+    if np.linalg.cond(Hr) > 1e4:
+        return None, case, 'long record not well conditioned'
+    try:
+        est.fit(X, **kw)
+    except Exception as ex:
+        return None, case, 'fit did not complete: ' + type(ex).__name__
+    if getattr(est, 'solution_status_', 'optimal') != 'optimal':
+        return None, case, 'solver status ' + str(est.solution_status_)
+    U = np.array(est.coef_.T, dtype=float)
+    if U.shape != (nx, nx + nu) or not np.all(np.isfinite(U)):
+        case['X'] = X.tolist()
+        return f'{type(est).__name__} on {q} snapshot pairs: coef_ has shape {est.coef_.shape} / is not finite', case, None
+    quad = lambda V: (c - 2 * np.sum(V * G) + np.sum((V @ Hr) * V) + a_oth * norm_term(V, reg, square)) / q
+    direct = lambda V: doc_cost(V, Psi, Theta, q, a_tik, a_oth, reg, square)
+    base = direct(U)
+    tol = 2e-5 * max(1.0, abs(base))
+    U_ridge = np.linalg.solve(Hr, G.T).T            # minimiser of the quadratic part
+    name = f'{type(est).__name__}({reg}, inv_method={case["inv"]}, alpha={alpha}, ratio={ratio}) on {q} snapshot pairs in {n_eps} episode(s)'
+    competitors = []
+    if reg == 'tikhonov':
+        competitors.append(('the closed-form ridge solution', U_ridge))
+    else:
+        f = lambda v: quad(v.reshape(U.shape))
+        r = scipy.optimize.minimize_scalar(lambda t: quad(t * U), bounds=(0.0, 4.0), method='bounded', options={'xatol': 1e-10})
+        competitors.append((f'the returned matrix times {float(r.x):.6g}', float(r.x) * U))
+        r = scipy.optimize.minimize_scalar(lambda s: quad(U + s * (U_ridge - U)), bounds=(0.0, 1.0), method='bounded',
+                                           options={'xatol': 1e-10})
+        competitors.append((f'a point on the segment to the ridge solution (s = {float(r.x):.6g})', U + float(r.x) * (U_ridge - U)))
+        rs = np.random.RandomState(rng.randint(0, 2 ** 31 - 1))
+        for x0 in [U.ravel(), U.ravel() + 0.1 * rs.randn(U.size)]:
+            r = scipy.optimize.minimize(f, x0, method='Nelder-Mead', options={'maxiter': 3000, 'xatol': 1e-10, 'fatol': 1e-14})
+            competitors.append(('a matrix found by local search', r.x.reshape(U.shape)))
+    for what, V in competitors:
+        cv = direct(V)          # (the verdict is stated on the documented cost evaluated sample by sample)
+        if cv < base - tol:
+            case['X'] = X.tolist()
+            case['competitor'] = V.tolist()
+            return f'{name}: {what} has documented cost {cv:.9g} < {base:.9g} of the returned coef_', case, None
+    if reg == 'tikhonov':
+        ref = pykoop.Edmd(alpha=alpha).fit(X, **kw)
+        c_ref = direct(np.array(ref.coef_.T, dtype=float))
+        if base > c_ref + tol:
+            case['X'] = X.tolist()
+            return f'{name}: documented cost {base:.9g}, Edmd(alpha={alpha}) reaches {c_ref:.9g}', case, None
+        cond = np.linalg.cond(Psi)
+        for what, W in (('Edmd', np.array(ref.coef_.T, dtype=float)), ('the closed-form ridge solution', U_ridge)):
+            if np.max(np.abs(W - U)) > 5e-3 * max(1.0, np.max(np.abs(W))) * max(1.0, cond ** 2 / 10):
+                case['X'] = X.tolist()
+                return (f'{name}: differs from {what} for the same alpha by {np.max(np.abs(W - U)):.3g} (cond(Psi) = {cond:.3g})',
+                        case, None)
+    return None, case, None
+
+
 def run(ctx):
     ctx.rule = ('(i) LmiEdmd._create_base_problem for all 7 inv_methods on integer data with a power-of-two number of '
                 'pairs (so c, G, H are dyadic): objective vs the Lean objective over Q, and the epigraph block against '
                 'its definition ([[Z, UL],[L^T U^T, I]] with L L^T = H, or [[Z, U],[U^T, H^-1]]); two-norm / nuclear blocks '
                 'vs the Lean blocks; (ii) cvxopt fits of LmiEdmd (all inv_method x reg_method x square_norm) and LmiDmdc: '
-                'competitor search on the documented cost and agreement with Edmd for pure Tikhonov')
+                'competitor search on the documented cost and agreement with Edmd for pure Tikhonov; (iii) the same two '
+                'families fitted on LONG records (1025..20000 snapshot pairs, mostly 4097..10000 and sizes next to powers of two, '
+                'in 1..500 episodes, non-stationary data on the grid 1/64 so that the harness\'s own Gram sums are exact; the LMI '
+                'size does not depend on the number of pairs): the returned matrix against the closed-form ridge solution and Edmd '
+                '(pure Tikhonov), against rescalings of itself, the segment towards the ridge solution and a local search (norm '
+                'regularisers), cost evaluated sample by sample on the whole record')
     ctx.explanation = ('theorems C12_* (Schur complement of the epigraph block, tight slack, objective = documented cost, '
                        'Tikhonov = EDMD, two-norm and nuclear-norm blocks = exact epigraphs); correspondence on problem structure; oracle: '
-                       'no competitor beats the returned cost by more than 2e-5 relative (SDP tolerance)')
+                       'no competitor beats the returned cost by more than 2e-5 relative (SDP tolerance), on short records and on '
+                       'records of thousands of snapshot pairs alike (data-size dependent routes in forming c, G, H / the SVD factors)')
     ctx.assumptions = ["an 'optimal' answer is optimal up to solver tolerance", 'numeric factorisations (chol, ldl, eig, sqrt, svd) are validated (L L^T = H to 1e-8), not proved']
     ctx.proof_obligations('Properties.C12', THEOREMS)
     def _sec_problem_structure():
@@ -278,8 +448,26 @@ def run(ctx):
                 if stop_at_first:
                     return
     fits(ctx.n(24, 400))
-    # a broken proof / correspondence with no failing fit so far: a larger population of fits (same oracle)
-    return ctx.finish('proof', lambda c: fits(100, True))
+    def long_fits(n, stop_at_first=False):
+        for i in range(n):
+            why, case, note = oracle_long(ctx, ctx.tier == 'thorough')
+            ctx.count(f"long_fit:{case['family']}/{case['reg']}" + (f"/{case['inv']}" if case['inv'] else ''))
+            ctx.count('long_pairs:' + ('<=4096' if case['pairs'] <= 4096 else '4097..10000' if case['pairs'] <= 10000 else '>10000'))
+            ctx.count('long_episodes:' + ('1' if case['episodes'] == 1 else '2..9' if case['episodes'] < 10 else '>=10'))
+            if note:
+                ctx.count('long_fit_note:' + note[:40])
+            ctx.record_case({k: v for k, v in case.items() if k not in ('X', 'competitor')}, True)
+            if why:
+                ctx.fail(why, case, {'family': case['family'], 'reg': case['reg']})
+                if stop_at_first:
+                    return
+    long_fits(ctx.n(12, 150))
+    # a broken proof / correspondence with no failing fit so far: a larger population of fits (same oracles)
+    def search(c):
+        fits(100, True)
+        if not ctx.failures:
+            long_fits(30, True)
+    return ctx.finish('proof', search)
 
 
 def replay(ctx, path):
@@ -291,6 +479,6 @@ def replay(ctx, path):
         print('this replay carries no re-executable oracle call (broken proof / correspondence: see "broken")')
         return 1
     ctx.restore(r['rng'])
-    why, case, note = oracle_fit(ctx, r['thorough'])
+    why, case, note = (oracle_long if r.get('kind') == 'long' else oracle_fit)(ctx, r['thorough'])
     print('oracle now:', why or 'property holds on this input', '' if note is None else f'({note})')
     return 1 if why else 0
